@@ -353,6 +353,45 @@ def check_mappings(ctx, rng, reqs, metas, n_cases):
                     reqs.append({"op": "mappingMap", "mapping": {"maps": maps_j, "mirror": mirror}, "pos": pos, "assoc": assoc})
                     r = pal.map_result(pos, assoc)
                     metas.append(("mappingMap", chain, None, [pal.map(pos, assoc), r.pos, r.del_info]))
+        # a copy is an independent mapping: build a mirrored mapping, copy it, extend copy and original differently (the copy
+        # registers further mirrors), then the original must map exactly like a mapping built the same way without the detour
+        if stp == "ok":
+            extra_a = [random_map(rng, 2, strict=True) for _ in range(rng.randint(1, 2))]
+            extra_b = [random_map(rng, 2) for _ in range(rng.randint(1, 3))]
+
+            def branch_and_extend():
+                base = build_palindrome(chain)
+                branch = base.copy()
+                n0 = len(branch.maps)
+                for i, r in enumerate(extra_a):
+                    branch.append_map(StepMap(list(r)))
+                for i, r in reversed(list(enumerate(extra_a))):
+                    branch.append_map(StepMap(list(r)).invert(), n0 + i)      # mirrors registered on the copy only
+                for r in extra_b:
+                    base.append_map(StepMap(list(r)))
+                return base
+
+            def direct():
+                base = build_palindrome(chain)
+                for r in extra_b:
+                    base.append_map(StepMap(list(r)))
+                return base
+            stx, bx = outcome(branch_and_extend)
+            sty, by = outcome(direct)
+            if stx == "ok" and sty == "ok":
+                hi2 = span(chain[0], False) + 1
+                for assoc in (-1, 1):
+                    for pos in range(hi2):
+                        g1, g2 = outcome(lambda: bx.map_result(pos, assoc)), outcome(lambda: by.map_result(pos, assoc))
+                        same = g1[0] == g2[0] == "ok" and (g1[1].pos, g1[1].del_info) == (g2[1].pos, g2[1].del_info)
+                        ctx.count("copy_independence_calls")
+                        if not same:
+                            ctx.violation("copy-independence", "a mapping maps differently after a copy of it was extended (the copy is not an "
+                                          "independent mapping: the composition of the original's maps changed)",
+                                          {"chain": chain, "copy_extended_by": extra_a, "original_extended_by": extra_b, "pos": pos, "assoc": assoc,
+                                           "got": [g1[1].pos, g1[1].del_info] if g1[0] == "ok" else str(g1[1]),
+                                           "expected": [g2[1].pos, g2[1].del_info] if g2[0] == "ok" else str(g2[1])})
+                            break
         # rebasing-style construction: undo A_k..A_1, apply other maps, redo A_1..A_k with mirrors; every slice of it
         chainA = [random_map(rng, 2, strict=True) for _ in range(rng.randint(1, 2))]
         between = [random_map(rng, 2) for _ in range(rng.randint(0, 2))]
